@@ -62,7 +62,8 @@ class Check(BaseCheck):
     def run(self, spec, rec):
         env.load()
         from hotxlfp.helper import cell as hc
-        getattr(self, 'c_' + spec['campaign'])(spec, rec, hc)
+        from ..oracle import Guarded
+        getattr(self, 'c_' + spec['campaign'])(spec, rec, Guarded(hc, rec, 'C19'))
 
     def c_sentinels(self, spec, rec, hc):
         # pinned inputs, one per mechanism ever seen (kept for ever: a fixed defect that returns is reported again)
